@@ -139,6 +139,74 @@ def rule_edges(ctx, rep):
             r.finding(inst + "|no-edge", where, "a %s initialiser names another declaration but contributes no edge: a self-containing structure through it is accepted" % name)
 
 
+def rule_decl_edges(ctx, rep):
+    """Every kind of type declaration whose definition can *name another type directly* (not through an initialiser, which
+    R-C07-edges covers) must add an edge where it is visited: the alias `A : B`, an enumeration / subrange / array declared as
+    another named type.  The kinds are computed from the DSL type definitions: a payload type D of DataTypeDeclarationKind refers to
+    another type if a `Type` is reachable from its fields other than its own name, without passing InitialValueAssignmentKind."""
+    r = rep.rule("R-C07-decledges", "every data-type declaration kind that can name another type in its definition adds a graph edge in its visit "
+                                    "override of the declaration-graph builder", floor=4, floor_what="declaration kinds that can name another type")
+    adts = ctx.facts.adts
+    kind = adts.get("ironplc_dsl::common::DataTypeDeclarationKind")
+    if not kind:
+        rep.error("R-C07-decledges", "DataTypeDeclarationKind not found")
+        return
+    TYPE = "ironplc_dsl::common::Type"
+    IVAK = "ironplc_dsl::common::InitialValueAssignmentKind"
+
+    def mentions(ty):
+        return [m.group(0) for m in re.finditer(r"ironplc_dsl::[A-Za-z_:]*[A-Za-z_]", ty)]
+
+    def reaches_type(adt_id, seen):
+        if adt_id in seen or adt_id == IVAK:
+            return False
+        seen.add(adt_id)
+        a = adts.get(adt_id)
+        if not a:
+            return False
+        for v in a["variants"]:
+            for fl in v["fields"]:
+                for t in mentions(fl["ty"]):
+                    if t == TYPE or reaches_type(t, seen):
+                        return True
+        return False
+    overrides = {b.f["name"]: b for b in ctx.prog.bodies.values() if (b.f.get("impl") or {}).get("self") == VIS}
+    from vlib.traversal import snake
+    for v in kind["variants"]:
+        payload = [t for fl in v["fields"] for t in mentions(fl["ty"])]
+        for d in payload:
+            a = adts.get(d)
+            if not a:
+                continue
+            refs = False
+            own_seen = 0
+            for vv in a["variants"]:
+                for fl in vv["fields"]:
+                    ts = mentions(fl["ty"])
+                    if fl["name"] in ("type_name", "data_type_name") and ts == [TYPE] and not own_seen:
+                        own_seen = 1          # the declaration's own name
+                        continue
+                    for t in ts:
+                        if t == TYPE or reaches_type(t, set()):
+                            refs = True
+            inst = "%s" % d.split("::")[-1]
+            where = "%s:%d" % (a["file"], a["line"])
+            if not refs:
+                continue
+            m = "visit_" + snake(d.split("::")[-1])
+            ob = overrides.get(m)
+            if ob is None:
+                r.finding(inst + "|no-override", where, "%s can name another type but the graph builder has no %s override: the reference adds no edge" % (inst, m))
+                continue
+            bodies = [ob] + [cb for cb in ctx.prog.bodies.values() if cb.f["dk"] == "Closure" and cb.f.get("parent") == ob.id]
+            has = any((c.callee or "").endswith("::add_edge") for bd in bodies for c in bd.calls())
+            if has:
+                r.ok(inst, "%s:%d" % (ob.f["file"], ob.f["line"]), m + " adds an edge")
+            else:
+                r.finding(inst + "|no-edge", "%s:%d" % (ob.f["file"], ob.f["line"]), "%s never adds an edge although a %s can be declared as another named type: "
+                          "a cycle through such a declaration is not a cycle of the graph" % (m, inst))
+
+
 def rule_map(ctx, rep):
     r = rep.rule("R-C07-map", "a cycle found by the topological sort becomes Problem::RecursiveCycle and is propagated by apply; the alias walk "
                               "in find_enum_declaration_values has a seen-set test on every iteration whose hit constructs Problem::EnumRecursive", floor=4)
@@ -247,6 +315,7 @@ def run(ctx, rep):
     rule_orient(ctx, rep)
     rule_edges(ctx, rep)
     rule_map(ctx, rep)
+    rule_decl_edges(ctx, rep)
     # a node per *name*: the declaration graph's name->node maps must identify names the way the language does
     from rules.c08 import rule_keys
     rule_keys(ctx, rep, rid="R-C07-keys", files=("xform_toposort_declarations", "xform_resolve_late_bound_data_decl", "symbol_graph"), floor=3,
